@@ -19,6 +19,8 @@ func vs_any[T any](f func(T) bool) bool { return true }
 func vs_fresh(p any) bool { return true }
 func vs_modifies(p any) {}
 func vs_visited(n int, k any) bool { return false }
+// vs_done(n): number of completed iterations of the n-th loop (a range over a slice) of the enclosing function.
+func vs_done(n int) int { return 0 }
 // vs_same(a, b): the two slices are the same view (same array, offset and length).
 func vs_same[T any](a, b []T) bool { return len(a) == len(b) && (len(a) == 0 || &a[0] == &b[0]) }
 // vs_has(m, k): k is a key of m.
